@@ -1067,7 +1067,10 @@ def scale_spec(draw):
 @st.composite
 def pitch_keys(draw, p_scale=0.3):
     nmain = draw(st.sampled_from([0, 1, 1, 1, 2, 2, 3]))
-    mains = draw(st.permutations(list(ref.PITCH_MAIN)))[:nmain]
+    order = list(draw(st.permutations(['midinote', 'note', 'degree'])))
+    if draw(st.integers(0, 3)) == 0:      # an explicit freq ends the chain
+        order.insert(draw(st.integers(0, 2)), 'freq')
+    mains = order[:nmain]
     keys = {m: draw(VAL[m]) for m in mains}
     nmod = draw(st.sampled_from([0, 0, 1, 1, 2, 3, 7]))
     for m in draw(st.permutations(MODS))[:nmod]:
